@@ -211,9 +211,22 @@ def run(ctx):
                     cfgs.append({"id": k, "proposal": prop, "outlier_prob": op, "clustered": cl, "chains": [1, 2, 4][k % 3],
                                  "n_mut": 4 + k % 4, "iters": 6, "subtree": [0.0, 0.4][k % 2], "run_seed": 1000 + k + ctx.seed})
                     k += 1
+    # hash-seed stress: many outliers, frequent subtree updates, string ids -- any set / dict-of-strings iteration
+    # order that reaches the sampler shows up as a trace that depends on PYTHONHASHSEED
+    stress = [{"id": 100, "proposal": "semi-adapted", "outlier_prob": 0.4, "clustered": False, "chains": 1, "n_mut": 6,
+               "iters": 40, "subtree": 0.7, "run_seed": 77 + ctx.seed, "stress": True}]
+    if not quick:
+        stress.append({"id": 101, "proposal": "fully-adapted", "outlier_prob": 0.3, "clustered": True, "chains": 1,
+                       "n_mut": 9, "iters": 40, "subtree": 0.5, "run_seed": 78 + ctx.seed, "stress": True})
+        stress.append({"id": 102, "proposal": "bootstrap", "outlier_prob": 0.5, "clustered": False, "chains": 2,
+                       "n_mut": 5, "iters": 40, "subtree": 1.0, "run_seed": 79 + ctx.seed, "stress": True})
+    cfgs = cfgs + stress
     tasks = []
     for cfg in cfgs:
-        for env in environments(cfg["chains"], quick):
+        envs = environments(cfg["chains"], quick)
+        if cfg.get("stress"):
+            envs = [{"name": "hashseed %s" % h, "hashseed": h} for h in (0, 1, 2, 3)]
+        for env in envs:
             tasks.append({"seed": ctx.seed, "cfg": cfg, "env": env, "slot": len(tasks)})
     results = ctx.map("checks.c18", "run_task", tasks, timeout=2400, workers=12)
     by_cfg = {}
@@ -234,7 +247,7 @@ def run(ctx):
         ctx.extra.setdefault("completion_orders_seen", {})["cfg%d (%d chains)" % (cfg["id"], cfg["chains"])] = sorted(
             list(o) for o in orders)
         ctx.extra.setdefault("hash_seeds_seen", sorted(set(str(e["hashseed"]) for e, _ in runs)))
-        if cfg["chains"] > 1 and len(orders) < 2:
+        if cfg["chains"] > 1 and len(orders) < 2 and not cfg.get("stress"):
             ctx.inconc("configuration %d: only one completion order of the parallel chains was observed" % cfg["id"])
         for env, r in runs[1:]:
             ctx.count("comparisons")
